@@ -269,7 +269,8 @@ def _data_def(R, e):
     while isinstance(e, ast.Name) and e.id in A and e.id not in seen:
         seen.add(e.id)
         defs = A[e.id]
-        data = [v for v in defs if not _is_empty_placeholder(v)]
+        # a definition that is just another name of an empty placeholder (`empty_X = np.array([]).reshape(0, D)`; `X1 = empty_X`) is one
+        data = [v for v in defs if not _is_empty_placeholder(v) and not (isinstance(v, ast.Name) and len(A.get(v.id, [])) == 1 and _is_empty_placeholder(A[v.id][0]))]
         placeholder = placeholder or len(data) < len(defs)
         if len(data) != 1:
             raise AnalysisError(f"{R['f'].site()}: `{e.id}` has {len(data)} non-placeholder definitions")
@@ -301,8 +302,13 @@ def vector_block(ctx, name):
     ok = len(diag) == 1 and isinstance(diag[0].op, ast.Add)
     if ok:
         idx = diag[0].target.slice
-        idx_src = U(one(A, idx.id, f)) if isinstance(idx, ast.Name) else U(idx)
-        ok = idx_src == "np.diag_indices(self.D)" and NN(aux).n(diag[0].value) == NN().n(parse_expr(prior_src.format(i=i)))
+        if isinstance(idx, ast.Name) and idx.id not in A and idx.id in single_defs(f.node):
+            idx_src = U(single_defs(f.node)[idx.id])          # loop-invariant: bound once before the sweep
+        else:
+            idx_src = U(one(A, idx.id, f)) if isinstance(idx, ast.Name) else U(idx)
+        # the whole diagonal of Q (Q = prec * X^T X is square, checked above): by the embedding dimension or read off Q itself
+        whole_diag = ("np.diag_indices(self.D)", f"np.diag_indices({Qn}.shape[0])", f"np.diag_indices({Qn}.shape[1])", f"np.diag_indices(len({Qn}))", f"np.diag_indices_from({Qn})")
+        ok = idx_src.replace(" ", "") in [w.replace(" ", "") for w in whole_diag] and NN(aux).n(diag[0].value) == NN().n(parse_expr(prior_src.format(i=i)))
     ctx.check("R4", f"{f.site()}::prior-on-diagonal", ok, f"Q[diag] += {prior_src.format(i=i)}",
               f"the prior precision added to Q's diagonal is `{U(diag[0].value) if diag else None}`, expected `{prior_src.format(i=i)}` on np.diag_indices(self.D)")
     dr = R["draw"]
@@ -470,6 +476,12 @@ def scalar_block(ctx, name):
     prior = prior_src.format(i=i)
     aux = aux_env(f)
     I = "cidx" if name == "_W0_step" else "idx"
+    if I not in A:
+        # the block's row set by role, whatever it is called: the local that indexes the fitted-value cache in its one update
+        upd_ = [n for n in walk_own(loop) if isinstance(n, ast.AugAssign) and isinstance(n.target, ast.Subscript) and U(n.target.value) == "self.Mu" and isinstance(n.target.slice, ast.Name)]
+        if len(upd_) == 1 and upd_[0].target.slice.id in A:
+            I = upd_[0].target.slice.id
+            aux = {k: v for k, v in aux.items() if k != I}
     st, pd = prior_arm(loop)
     in_prior = set(id(x) for b in (st.body if st is not None else []) for x in ast.walk(b))
     mean = one({k: [v for v in vs if not (isinstance(v, ast.Constant))] for k, vs in A.items()}, "mean", f)
